@@ -506,3 +506,53 @@ theorem C17_shadow_history (s : State) (L : Ledger) (sh : Shadow) (hist : List (
         (C17_shadow_step env s s' c r sh hs hex hrel hx) hgt
 
 end Ats.Proofs
+
+namespace Ats.Proofs
+open Ats Ats.Spec
+
+/-- C17, fees of a match: the `ask_fee` and `bid_fee` a response reports were really paid, out
+    of the contract, to the configured fee accounts (no invariant and no magnitude hypothesis:
+    read off the accepted handler) -/
+theorem C17_fees_paid (env : Env) (s s' : State) (c : Call) (r : Response)
+    (askId bidId price : String) (size : Nat)
+    (hm : c.msg = .executeMatch askId bidId price size)
+    (h : execute env s c = .ok (s', r)) : C17_feesPaidOK env.contract s bidId r = true := by
+  unfold execute at h
+  simp only [Res.bind_eq_ok, guardR_eq_ok, hm] at h
+  obtain ⟨_, _, h⟩ := h
+  obtain ⟨a, b, askP, bidP, execP, grossD, gross, askFee, bidFee, m2, m3, rp, _, _, _, hb, _, _, _, _, _, _, _, _,
+    _, _, _, haf, _, _, hm2, _, _, _, rfl⟩ := executeMatch_ok h
+  unfold C17_feesPaidOK
+  have ha1 : numAttr [("action", "execute"), ("ask_id", askId), ("bid_id", bidId), ("base", b.base.denom),
+      ("quote", a.quote), ("price", price), ("size", toString size), ("ask_fee", toString askFee),
+      ("bid_fee", toString bidFee)] "ask_fee" = some askFee := by
+    simp only [numAttr_cons_ne, numAttr_cons_eq, ne_eq, String.reduceEq, not_false_eq_true]
+  have ha2 : numAttr [("action", "execute"), ("ask_id", askId), ("bid_id", bidId), ("base", b.base.denom),
+      ("quote", a.quote), ("price", price), ("size", toString size), ("ask_fee", toString askFee),
+      ("bid_fee", toString bidFee)] "bid_fee" = some bidFee := by
+    simp only [numAttr_cons_ne, numAttr_cons_eq, ne_eq, String.reduceEq, not_false_eq_true]
+  simp only [hb, ha1, ha2, Bool.and_eq_true, Bool.or_eq_true, beq_iff_eq]
+  constructor
+  · by_cases h0 : askFee = 0
+    · exact Or.inl h0
+    · right
+      cases hfi : s.info.askFee with
+      | none =>
+        -- no ask fee configured: the fee is 0
+        exfalso
+        unfold AskFeeIs at haf
+        simp [hfi] at haf
+        exact h0 haf
+      | some fi =>
+        simp only [decide_eq_true_eq, credit_append, credit_askFeeMsgList, hfi, Option.map_some,
+          Option.getD_some, Option.isSome_some, and_self, if_true]
+        omega
+  · by_cases h0 : bidFee = 0
+    · exact Or.inl h0
+    · right
+      rcases bidFeeMsgs_ok.mp hm2 with ⟨hz, _⟩ | ⟨_, fi, hfi, rfl⟩
+      · exact absurd hz h0
+      · simp only [hfi, decide_eq_true_eq, credit_append, credit_payMsgR, and_self, if_true]
+        omega
+
+end Ats.Proofs
